@@ -861,6 +861,22 @@ Fixpoint map_scan (fuel : nat) (keys : list (str * str)) (s slow : str) (acc : s
       end
   end.
 
+(* string map -nocase: at every position the REMAINING input is lower-cased and compared with
+   the (lower-cased) keys; a match consumes as many characters of the original as the key has *)
+Fixpoint map_scan_nocase (fuel : nat) (lower : str -> str) (keys : list (str * str)) (s : str) (acc : str) : str :=
+  match fuel with
+  | O => rev acc
+  | S f =>
+      match s with
+      | [] => rev acc
+      | c :: r =>
+          match find (fun kv => starts_with (fst kv) (lower s)) keys with
+          | Some (k, v) => map_scan_nocase f lower keys (skipn (length k) s) (rev v ++ acc)
+          | None => map_scan_nocase f lower keys r (c :: acc)
+          end
+      end
+  end.
+
 Definition cmd_string (st : interp) (argv : list value) : M value :=
   do (st, _) <- lift st (check_subcommand argv);
   if is_sub argv "cat" then ret st (VStr (concat_str (map as_str (skipn 2 argv))))
@@ -911,7 +927,8 @@ Definition cmd_string (st : interp) (argv : list value) : M value :=
     let keys := filter (fun kv => negb (Nat.eqb (length (fst kv)) 0))
                   (map (fun kv => (if nocase then u_lower U (as_str (fst kv)) else as_str (fst kv),
                                    as_str (snd kv))) d) in
-    ret st (VStr (map_scan (S (length s)) keys s (if nocase then u_lower U s else s) []))
+    ret st (VStr (if nocase then map_scan_nocase (S (length s)) (u_lower U) keys s []
+                  else map_scan (S (length s)) keys s s []))
   else if is_sub argv "range" then
     do (st, _) <- lift st (check_args "cmd_string_range" argv);
     let s := as_str (arg argv 2) in
